@@ -174,3 +174,7 @@ class SymCtx(CtxBase):
         """binascii.crc32 of the linked file is an uninterpreted value chosen by the solver"""
         from . import sx_binascii
         sx_binascii.set_crc32((lambda data, crc=0: value) if value is not None else None)
+
+    def loose_text(self, flag=True):
+        """section / symbol names made of symbolic non-ASCII bytes are approximated (only for harnesses that never observe text)"""
+        core.LOOSE_DECODE = bool(flag)
